@@ -31,7 +31,7 @@ def idpack(rng, n=60):
 def main():
     ctx = Ctx('C16', 'translation_validation', variants=('plain',))
     b = ctx.b; rng = ctx.rng
-    progs, disc = progset.pool(b, ctx, ctx.q(10, 100), ctx.q(8, 120), ctx.q(10, 150), 'C16')
+    progs, disc = progset.pool(b, ctx, ctx.q(10, 40), ctx.q(8, 50), ctx.q(10, 60), 'C16')
     progs.append({'name': 'idpack', 'lib': 'aldor', 'text': idpack(random.Random('idpack')), 'inc': None, 'expected': None, 'g': None})
     OPTS = [(std, smax, ln) for std in ('-Cstandard', '-Cold') for smax in (0, 1, 5, 50) for ln in ('-Clines', '-Cno-lines')]
     IDL = [0, 31, 40, 64]
